@@ -237,6 +237,12 @@ class StochasticScenario(Scenario):
                                                                    'y': {'kind': 'spike', 'shape': 'F', 'value': -9000.0, 'pos': [rng.randint(0, 2), rng.randint(0, 2)]}}})
         ev.append({'c': -1, 'fn': 'array', 'id': 'HUGE', 'recipe': {'kind': 'add', 'x': {'kind': 'uniform', 'shape': 'F', 'lo': 1500.0, 'hi': 5000.0, 'seed': 2},
                                                                     'y': {'kind': 'spike', 'shape': 'F', 'value': 9.5e18, 'pos': [1, 1]}}})
+        # a pixel between the documented 10-sigma guard (9.223372006e18) and 2**63
+        ev.append({'c': -1, 'fn': 'array', 'id': 'HUGE2', 'recipe': {'kind': 'add', 'x': {'kind': 'uniform', 'shape': 'F', 'lo': 1500.0, 'hi': 5000.0, 'seed': 3},
+                                                                     'y': {'kind': 'spike', 'shape': 'F', 'value': 9.2233720300e18, 'pos': [0, 1]}}})
+        # integer-typed electron frames (read noise must still be zero-mean with the requested sigma)
+        ev.append({'c': -1, 'fn': 'array', 'id': 'IMGI', 'recipe': {'kind': 'integers', 'shape': 'F', 'lo': 100, 'hi': 5000, 'seed': rng.randrange(10 ** 6),
+                                                                    'dtype': rng.choice(['int32', 'int64', 'uint16'])}})
         ev.append({'c': -1, 'fn': 'array', 'id': 'MQ', 'recipe': {'kind': 'disk', 'shape': 'Q', 'radius': world['shapes']['Q'][0] / 2.0 - 0.2}})
         ev.append({'c': -1, 'fn': 'array', 'id': 'MR', 'recipe': {'kind': rng.choice(['disk', 'rect', 'ones']), 'shape': 'R', 'radius': 3.3,
                                                                   'half': [2, 4]}})
@@ -258,19 +264,28 @@ class StochasticScenario(Scenario):
             out.append(e)
             return e
 
+        last_seed = [7]
+
         def seed():
-            return rng.choice([rng.randrange(2 ** 31), rng.randrange(100), [rng.randrange(100), rng.randrange(100)]])
+            r = rng.random()
+            if r < 0.3:      # a neighbour of the previous integer seed (s+1, s-1, s^1): still a different seed
+                s_ = max(0, last_seed[0] + rng.choice([1, -1, (last_seed[0] ^ 1) - last_seed[0]]))
+            else:
+                s_ = rng.choice([rng.randrange(2 ** 31), rng.randrange(100), [rng.randrange(100), rng.randrange(100)]])
+            if isinstance(s_, int):
+                last_seed[0] = s_
+            return s_
 
         for _ in range(n):
             r = rng.random()
             if r < 0.3:
                 method = rng.choice(['poisson', 'gaussian'])
-                img = rng.choice(['FLAT', 'IMG', 'IMGL', 'FLATG', 'NEG', 'HUGE']) if method == 'poisson' else \
-                    rng.choice(['FLATG', 'IMG', 'FLATG', 'NEG', 'HUGE', 'IMGL'])
+                img = rng.choice(['FLAT', 'IMG', 'IMGL', 'FLATG', 'NEG', 'HUGE', 'HUGE2']) if method == 'poisson' else \
+                    rng.choice(['FLATG', 'IMG', 'FLATG', 'NEG', 'HUGE', 'IMGL', 'HUGE2'])
                 E('shot_noise', ['@' + img], {'method': method, 'seed': seed()},
-                  t={'distinct_expected': img == 'IMG' and method == 'poisson'})
+                  t={'distinct_expected': img == 'IMG'})
             elif r < 0.45:
-                E('read_noise', ['@' + rng.choice(['IMG', 'FLAT']), rng.choice([1.0, 5.0, 12.5])], {'seed': seed()}, t={'distinct_expected': True})
+                E('read_noise', ['@' + rng.choice(['IMG', 'FLAT', 'IMGI']), rng.choice([0.4, 1.0, 5.0, 12.5])], {'seed': seed()}, t={'distinct_expected': True})
             elif r < 0.6:
                 E('dark_current', [rng.choice([0.4, 5.7, 100.0, 1234.9])],
                   {'shape': rng.choice([[4, 5], [6, 6], [3, 8]]), 'fpn_factor': rng.choice([0, 0, 0.1, 0.3]), 'seed': seed()})
@@ -356,6 +371,12 @@ class StochasticScenario(Scenario):
                 E('shot_noise', ['@FLATG'], {'method': method, 'seed': 5}, t={'dup': True})
                 E('shot_noise', ['@FLATG'], {'method': method, 'seed': 6})
             E('shot_noise', ['@FLAT'], {'method': 'poisson', 'seed': 11})
+            for method in ('poisson', 'gaussian'):
+                E('shot_noise', ['@HUGE2'], {'method': method, 'seed': 5})
+                for sd_ in (40, 41, 42, 43):
+                    E('shot_noise', ['@IMG'], {'method': method, 'seed': sd_}, t={'distinct_expected': True})
+            E('read_noise', ['@IMGI', 0.4], {'seed': 8}, t={'distinct_expected': True})
+            E('read_noise', ['@IMGI', 1.0], {'seed': 9}, t={'distinct_expected': True})
             E('read_noise', ['@IMG', 7.5], {'seed': 3}, t={'distinct_expected': True})
             E('read_noise', ['@IMG', 7.5], {'seed': 4}, t={'distinct_expected': True})
             E('dark_current', [17.9], {'shape': [5, 7], 'fpn_factor': 0, 'seed': 1})
